@@ -25,3 +25,43 @@ package slicecache
 //@   loop 2 invariant forall(j, 0, i, !c.shardIsCached[j])
 //@   loop 2 invariant c.shardIsCached == old(c.shardIsCached) && c.requireAll && 0 <= i
 //@   loop 2 invariant exists(j, 0, len(c.shardIsCached), !old(c.shardIsCached[j]))
+
+// ---- write-through: the cache file is committed only at end-of-stream with every batch written ----
+// Ghost state comes from the assumed contracts of grailbio/base/file (fcloses/fdiscards: Close is the commit,
+// Discard the abort), of the upstream sliceio.Reader (lastN/lastErr/nreads) and of the encoder (nwrites/lastWErr).
+
+//@ spec func wtOpen(r *writethroughReader) bool = (r.file == nil && r.enc == nil && r.zw == nil) || (r.file != nil && r.enc != nil && r.zw != nil && r.file.fcloses == 0 && r.file.fdiscards == 0 && r.zw.zcloses == 0)
+
+//@ func slicecache.(*writethroughReader).Read (ctx, frame) (n, err)
+//@   requires r != nil && r.Reader != nil && wtOpen(r)
+//@   requires frame.len >= 0 && frame.len <= frame.cap
+//@   ensures  upstream-at-most-once: r.Reader.nreads <= old(r.Reader.nreads) + 1
+//@   ensures  transparent-n: implies(r.Reader.nreads == old(r.Reader.nreads) + 1, n == r.Reader.lastN)
+//@   ensures  transparent-err: implies(r.Reader.nreads == old(r.Reader.nreads) + 1, err == r.Reader.lastErr || (err != nil && (r.Reader.lastErr == nil || r.Reader.lastErr == sliceio.EOF)))
+//@   ensures  no-upstream-means-error: implies(r.Reader.nreads == old(r.Reader.nreads), err != nil && n == 0)
+//@   ensures  delivered-means-written: implies(err == nil, r.enc != nil && r.enc.nwrites == old(ite(r.enc == nil, 0, r.enc.nwrites)) + 1 && r.enc.lastWErr == nil && r.enc.lastOff == frame.off && r.enc.lastLen == n)
+//@   ensures  commit-only-at-eof: implies(r.file != nil && r.file.fcloses > 0, r.Reader.nreads == old(r.Reader.nreads) + 1 && r.Reader.lastErr == sliceio.EOF && r.enc.lastWErr == nil && r.enc.lastLen == n && r.zw.zcloses == 1)
+//@   ensures  eof-means-committed: implies(err == sliceio.EOF, r.file != nil && r.file.fcloses == 1 && r.file.fcloseErr == nil && r.zw.zcloseErr == nil && r.file.fdiscards == 0)
+//@   ensures  abort-on-upstream-error: implies(r.Reader.nreads == old(r.Reader.nreads) + 1 && r.Reader.lastErr != nil && r.Reader.lastErr != sliceio.EOF, r.file.fdiscards == old(ite(r.file == nil, 0, r.file.fdiscards)) + 1 && r.file.fcloses == 0)
+//@   ensures  still-open-otherwise: implies(err == nil, wtOpen(r) && r.file != nil)
+//@   modifies r.file, r.zw, r.enc, SReader.nreads, SReader.lastN, SReader.lastErr, elems(frame.data), File.fsize, File.fcloses, File.fdiscards, File.fcloseErr, Writer.wcalls, Writer.wlastErr, Writer.wfile, WCloser.under, WCloser.zcloses, WCloser.zcloseErr, Encoder.nwrites, Encoder.lastWErr, Encoder.lastOff, Encoder.lastLen, Encoder.encw
+
+//@ func slicecache.newFileReader
+//@   ensures result != nil
+//@   modifies nothing
+//@ func slicecache.newWritethroughReader
+//@   ensures result != nil && hastype(result, *writethroughReader) && unbox(result, *writethroughReader).Reader == reader && wtOpen(unbox(result, *writethroughReader))
+//@   modifies nothing
+
+//@ func slicecache.(*FileShardCache).CacheReader
+//@   panics_if c == nil || shard < 0 || shard >= len(c.shardIsCached)
+//@   ensures  miss-is-error-reader: implies(!c.shardIsCached[shard], result != nil && result.errOnly)
+//@   modifies SReader.errOnly
+
+//@ func slicecache.(*FileShardCache).WritethroughReader
+//@   ensures  nil-cache-is-identity: implies(c == nil, result == reader)
+//@   ensures  wraps-upstream: implies(c != nil, hastype(result, *writethroughReader) && unbox(result, *writethroughReader).Reader == reader)
+//@   modifies nothing
+
+//@ extern func slicecache.(*FileShardCache).path
+//@   modifies nothing
